@@ -22,7 +22,9 @@ import (
 	"sync/atomic"
 	"time"
 
+	"github.com/coredhcp/coredhcp/config"
 	"github.com/coredhcp/coredhcp/handler"
+	"github.com/coredhcp/coredhcp/plugins"
 	"github.com/coredhcp/coredhcp/plugins/dns"
 	"github.com/coredhcp/coredhcp/plugins/file"
 	"github.com/coredhcp/coredhcp/plugins/netmask"
@@ -57,6 +59,12 @@ func runC16(c *Ctx) {
 		runServeLoop4(c, c.Scale(6, 60))
 		runServeLoop6(c, c.Scale(6, 60))
 		runFramesConcurrent(c, c.Scale(30, 300))
+		runL2Concurrent(c, c.Scale(20, 200))
+		runRangeRestartBurst(c, c.Scale(10, 60))
+		c.SetCases(asmCasesHdr, "AsmRun.mismatches")
+		c.shard = 12
+		startScenarioRange(c) // server.Start with two listeners per protocol, under the race detector
+		startScenarioPD(c)
 		runDualStackRefresh(c)
 		c.Extra["concurrent_phase"] = "race detector: concurrent datagrams through HandleMsg4 (server_id, file with autorefresh and the lease file rewritten in flight, range, dns, router, netmask) and HandleMsg6 (server_id, prefix, dns) with receive buffers from the server's pool, plus the allocator / range / prefix concurrent phases"
 		return
@@ -73,6 +81,12 @@ func runC16(c *Ctx) {
 	runServeLoop4(c, c.Scale(10, 200))
 	runServeLoop6(c, c.Scale(10, 200))
 	runFramesConcurrent(c, c.Scale(40, 600))
+	runL2Concurrent(c, c.Scale(30, 400))
+	runRangeRestartBurst(c, c.Scale(15, 100))
+	c.SetCases(asmCasesHdr, "AsmRun.mismatches")
+	c.shard = 12
+	startScenarioRange(c) // server.Start: every listener is served, by the one shared chain
+	startScenarioPD(c)
 	c.Extra["rule"] = "rounds of 12 simultaneous datagrams through HandleMsg4 with the chain server_id, file (autorefresh; lease file rewritten in place between two tables while requests are in flight), range (24 addresses, filled to exhaustion), dns, router, netmask: 8 dynamic clients (alternately one new client 8 times / 8 new clients), 2 static clients, 1 truncated datagram, 1 BOOTREPLY; rounds of 10 simultaneous SOLICITs with IA_PD through HandleMsg6 with the chain server_id, prefix (16 blocks, to exhaustion), dns: same / different clients plus a truncated datagram and an unsupported message type; receive buffers come from the server's pool; replies matched to requests by transaction id; per range / prefix instance one linearisation case (witness order = order of the addresses given) run on the Coq model; then the allocator, range-handler and prefix-handler concurrent phases incl. the gated interleaving; all of it again under the race detector. non-trivial = a round in which at least two datagrams were answered"
 }
 
@@ -647,4 +661,117 @@ func runChain6Concurrent(c *Ctx, pools int, witness bool) {
 		}
 	}
 	c.Dist["v6-chain-instances"] += pools
+}
+
+// runL2Concurrent: datagrams of address-less clients without the broadcast flag, received on the
+// loopback interface, handled at the same moment: each takes the layer-2 path (interface look-up,
+// then sendEthernet, which refuses the loopback interface for want of a hardware address).
+func runL2Concurrent(c *Ctx, rounds int) {
+	lo, err := net.InterfaceByName("lo")
+	if err != nil {
+		return
+	}
+	installHook()
+	registerSynthetic()
+	conf := &config.Config{Server4: &config.ServerConfig{Plugins: []config.PluginConfig{{Name: "vtest", Args: []string{"p"}}}}}
+	h4, _, err := plugins.LoadPlugins(conf)
+	if err != nil {
+		return
+	}
+	l := server.NewVerifListener4(h4, net.Interface{}, func(p []byte, cm *ipv4.ControlMessage, dst net.Addr) {})
+	defer l.Close()
+	const G = 8
+	for r := 0; r < rounds; r++ {
+		var start int32
+		var wg sync.WaitGroup
+		pan := make([]string, G)
+		for g := 0; g < G; g++ {
+			wg.Add(1)
+			go func(g int) {
+				defer wg.Done()
+				defer func() {
+					if x := recover(); x != nil {
+						pan[g] = fmt.Sprint(x)
+					}
+				}()
+				s := req4spec{op: 1, mtype: []byte{1}, chaddr: []byte{2, 0x16, 0, byte(r), 0, byte(g)}, xid: uint32(0x16000000 + r*16 + g)}
+				raw := buildReq4(s)
+				for atomic.LoadInt32(&start) == 0 {
+				}
+				l.Handle(raw, &ipv4.ControlMessage{IfIndex: lo.Index}, &net.UDPAddr{IP: net.IPv4zero, Port: 68})
+			}(g)
+		}
+		atomic.StoreInt32(&start, 1)
+		wg.Wait()
+		c.Evals++
+		for g := 0; g < G; g++ {
+			if pan[g] != "" {
+				c.vio("C16", "concurrent-l2-panic", fmt.Sprintf("%d datagrams taking the layer-2 reply path at the same moment: panic: %s", G, pan[g]), map[string]interface{}{"round": r})
+			}
+		}
+	}
+	c.Count("l2-concurrent:rounds")
+}
+
+// runRangeRestartBurst: the range plugin restarts on a database with stored leases and the first
+// datagrams - from clients it has never seen - arrive at once, immediately: none of them may be
+// given an address the database assigns to somebody else.
+func runRangeRestartBurst(c *Ctx, trials int) {
+	wd := workDir()
+	for t := 0; t < trials; t++ {
+		dbPath := filepath.Join(wd, fmt.Sprintf("leases-burst-%d-%d.sqlite3", os.Getpid(), t))
+		os.Remove(dbPath)
+		h, err := rangeplugin.Plugin.Setup4(dbPath, "10.6.0.1", "10.6.0.12", "1h")
+		if err != nil {
+			c.Violate("harness-setup", "restart burst: "+err.Error(), nil)
+			return
+		}
+		bound := map[string]string{}
+		for k := 0; k < 4; k++ {
+			ch := []byte{2, 0x17, byte(t), 0, 0, byte(k)}
+			resp, _ := dhcpv4.New()
+			out, _, _, _ := callH4(h, mkReq4(ch, "", dhcpv4.MessageTypeDiscover), resp)
+			if out != nil {
+				bound[out.YourIPAddr.String()] = fmt.Sprintf("%x", ch)
+			}
+		}
+		h2, err := rangeplugin.Plugin.Setup4(dbPath, "10.6.0.1", "10.6.0.12", "1h")
+		if err != nil {
+			c.vio("C03", "restart-fails", "restart on the database the plugin wrote fails: "+err.Error(), nil)
+			os.Remove(dbPath)
+			continue
+		}
+		const G = 6
+		var wg sync.WaitGroup
+		got := make([]string, G)
+		for g := 0; g < G; g++ { // no barrier: the point is to be early
+			wg.Add(1)
+			go func(g int) {
+				defer wg.Done()
+				ch := []byte{2, 0x18, byte(t), 0, 0, byte(g)}
+				resp, _ := dhcpv4.New()
+				out, _, _, _ := callH4(h2, mkReq4(ch, "", dhcpv4.MessageTypeDiscover), resp)
+				if out != nil {
+					got[g] = out.YourIPAddr.String()
+				}
+			}(g)
+		}
+		wg.Wait()
+		c.Evals++
+		seen := map[string]int{}
+		for g, ip := range got {
+			if ip == "" {
+				continue
+			}
+			if owner, ok := bound[ip]; ok {
+				c.vio("C02", "address-shared", fmt.Sprintf("right after a restart on a database with 4 stored leases a new client was given %s, which the database assigns to client %s", ip, owner), map[string]interface{}{"trial": t})
+			}
+			if prev, ok := seen[ip]; ok {
+				c.vio("C02", "address-shared", fmt.Sprintf("right after a restart new clients %d and %d were both given %s", prev, g, ip), map[string]interface{}{"trial": t})
+			}
+			seen[ip] = g
+		}
+		os.Remove(dbPath)
+	}
+	c.Count("range-restart-burst:trials")
 }
